@@ -43,7 +43,16 @@ def main(argv):
     checker_cmd = ('cd lean/DEvo && lake build %s devo-driver && lake env lean <#print axioms of every theorem in %s>'
                    % (module, module))
     try:
-        ctx.variant.update(lean.extract() or {})
+        try:
+            ctx.variant.update(lean.extract() or {})
+        except Exception as e:
+            if type(e).__name__ != 'ExtractError':
+                raise
+            # the source left the subset the translator understands: the model can no longer be
+            # regenerated from it, so no theorem is shown to hold of the current code; the oracle
+            # below still searches the real code for a failing input
+            ctx.brk('translator', 'tools/vlib/extract.py', str(e)[:300])
+            ctx.variant['translator_failed'] = str(e)[:200]
         ok = lean.build([module, 'devo-driver'])
         if not ok:
             failing = lean.failing_modules()
